@@ -171,7 +171,10 @@ def run(ctx):
     ndata = 1 if ctx.tier == "quick" else 6
     fps = ctx.driver.call("txn.footprints", {})
     decl = fps["footprints"]
-    for d_i in range(ndata):
+    done_data = 0
+    for d_i in range(40):
+        if done_data >= ndata:
+            break
         tr = P.gen_truth(rng, n_events=3 if ctx.tier == "quick" else rng.randint(3, 6), noise=0.4).add_gap(rng)
         zstep = rng.choice([1.0, 2.0, 2.5])
         files = cli.write_dataset(ctx.tmp, "t%d" % d_i, *tr.rows())
@@ -194,7 +197,9 @@ def run(ctx):
             states[st] = nxt
             cur = nxt
         if not canon_ok:
+            ctx.count("datasets_skipped_no_master_curve")
             continue
+        done_data += 1
         final = cli.dump(states["recession"])
         pred = {"classify": "loaded", "set-zeta-grid": "classify", "set-curvature": "set-zeta-grid",
                 "rise": "set-curvature", "recession": "rise"}
